@@ -14,7 +14,7 @@ AllowedAt(c, o, j) ==
   LET f == o.before[j].field
       st == IF f \in DOMAIN c.inst THEN c.inst[f] ELSE "ok"
   IN RepairOf(st) # "same" /\ o.after[j].text = RepairOf(st)
-     /\ o.after[j].kind = (IF st \in {"casefold", "casefold2", "dup_casefold"} THEN "str" ELSE IF st = "numfloat" THEN "float" ELSE "int")
+     /\ o.after[j].kind = (IF st \in {"casefold", "casefold2", "dup_casefold", "casefold1"} THEN "str" ELSE IF st = "numfloat" THEN "float" ELSE "int")
 LogPairs(o) == {<<o.log[j].before, o.log[j].after>> : j \in DOMAIN o.log}
 RouteFails(c, o) ==
      (IF [j \in DOMAIN o.before |-> o.before[j].key] = [j \in DOMAIN o.after |-> o.after[j].key] THEN {} ELSE {"KeysNestingOrderUnchanged:" \o o.route})
